@@ -151,7 +151,7 @@ func hangClass(d *Doc) string {
 // Run is the C01 search run.
 func Run(tier string, seed uint64, modelPath, repo string, out *res.Result) error {
 	t0 := time.Now()
-	nDocs, metaEvery, rerunBudget := 3000, 3, 300*time.Second
+	nDocs, metaEvery, rerunBudget := 3000, 3, 240*time.Second
 	if tier == "thorough" {
 		nDocs, metaEvery, rerunBudget = 150000, 6, 2400*time.Second
 	}
@@ -362,7 +362,15 @@ func Run(tier string, seed uint64, modelPath, repo string, out *res.Result) erro
 	return nil
 }
 
+// shrinkDeadline bounds the wall-clock time of the whole shrink phase (a loaded machine makes every
+// render slow); past it the shrinkers stop reducing and report what they have.
+var shrinkDeadline time.Time
+
 func report(pool *Pool, fails []failure, kf []kfEntry, out *res.Result, tier string) {
+	shrinkDeadline = time.Now().Add(240 * time.Second)
+	if tier == "thorough" {
+		shrinkDeadline = time.Now().Add(1500 * time.Second)
+	}
 	byKey := map[string][]failure{}
 	var keys []string
 	for _, f := range fails {
@@ -485,7 +493,7 @@ func shrinkOne(pool *Pool, f failure) res.Finding {
 	switch {
 	case f.kind == "judge":
 		op = opMeta
-		budget = 150
+		budget = 80
 		still = func(d *Doc) bool {
 			b := d.Clone()
 			b.Variant = false
@@ -501,17 +509,17 @@ func shrinkOne(pool *Pool, f failure) res.Finding {
 			return vo.Status == "ok" && vo.Trace != bo.Trace
 		}
 	case f.key == "memory":
-		budget = 12
+		budget = 8
 		still = func(d *Doc) bool {
 			c := d.Case()
 			c.LimitMS, c.MaxPages, c.NoTrace = 20000, maxPages(c), true
 			return pool.One(c).Status == "memory"
 		}
 	case f.key == "hang":
-		budget = 30
+		budget = 16
 		still = func(d *Doc) bool {
 			c := d.Case()
-			c.LimitMS, c.MaxPages, c.NoTrace = 5000, maxPages(c), true
+			c.LimitMS, c.MaxPages, c.NoTrace = 4000, maxPages(c), true
 			o := pool.One(c)
 			return o.Status == "pageloop" || o.Status == "timeout" || o.Status == "memory"
 		}
@@ -522,6 +530,13 @@ func shrinkOne(pool *Pool, f failure) res.Finding {
 			o := pool.One(c)
 			return crashKey(o) == f.key
 		}
+	}
+	inner := still
+	still = func(d *Doc) bool {
+		if time.Now().After(shrinkDeadline) {
+			return false
+		}
+		return inner(d)
 	}
 	small, used := Shrink(f.doc, still, budget)
 	key := f.key
